@@ -1,6 +1,7 @@
 import Mathlib.Data.List.Nodup
 import Mathlib.Tactic.IntervalCases
 import Proofs.TournamentSelect
+import Proofs.TournGenEq
 
 /-!
 # C05 — tournament selection keeps the fittest and builds a well-formed generation
@@ -238,6 +239,167 @@ theorem C05_ranking_exists (w : Nat) (pop : List Agent) :
     rank array numpy really returned) decides exactly the specification `IsRanking`. -/
 theorem C05_ranking_test_sound (ks : List Key) (rank : List Nat) :
     isRankingB ks rank = true ↔ IsRanking ks rank := isRankingB_iff ks rank
+
+/-! ## source translation
+
+`harness/py2lean_tourn.py` translates the source text of `TournamentSelection.{__init__, _tournament,
+_elitism, select}` (`agilerl/hpo/tournament.py` of the tree under test) into `Gen/TournGen.lean` on every
+run of the check; `Proofs/TournGenEq.lean` proves the generated definitions equal to the model
+functions.  The statements below mention the GENERATED functions only (`TournGen.TournamentSelection.*`
+through `toGen c`, the model's configuration as the generated record), so a change of the source that
+alters their meaning breaks them.
+
+Runtime values are explicit parameters: `s0 s1 s2` = the results of the three `np.argsort` calls,
+`draws t` = the `np.random.randint` result of tournament `t`, `clone` = `agent.clone(index, wrap)`.
+`NumpyOk` is what numpy guarantees about them (sorting permutations with ties in any order; draws of
+`tournament_size` positions of the population).  `clone` is ANY function unless stated: what it does
+to an agent is property C01; where indices are concerned the hypothesis is that `clone(index)` sets
+the index and `clone()` keeps it. -/
+section source_translation
+open TournGen
+
+/-- every generated definition equals the hand-written model function, for all inputs -/
+theorem C05_source_translation_equalities (c : Cfg) (hv : c.valid) (pop : List Agent) (hne : pop ≠ [])
+    (s0 s1 s2 : List Nat) (draws : Nat → List Nat) (ok : NumpyOk c pop s0 s1 s2 draws) :
+    TournamentSelection.__init__ c.tsize c.elitism c.popSize c.evalLoop = some (toGen c) ∧
+    (∀ rank ds, (toGen c)._tournament rank ds =
+      if ds.length = c.tsize ∧ ∀ d ∈ ds, d < rank.length then some (winner rank ds) else none) ∧
+    (∀ clone, (toGen c)._elitism (opsWith clone) pop s0 s1 s2 =
+      some (clone (pop.getD (elitePos s1) default) none true, s1, maxId pop)) ∧
+    IsRanking (keys c.evalLoop pop) s1 ∧
+    (toGen c).select (opsWith modelClone) pop s0 s1 s2 draws = some (eliteOf s1 pop, newPop c s1 pop draws) := by
+  refine ⟨by rw [gen_init_eq, if_pos hv], gen_tournament_eq c hv, ?_, ok.ranking,
+    (gen_select_eq c hv pop hne s0 s1 s2 draws ok.h0 ok.h1 ok.h2 ok.hd).1⟩
+  intro clone
+  exact (gen_elitism_eq clone c hv pop hne s0 s1 s2 ok.h0 ok.h1 ok.h2).1
+
+/-- the constructor's four assertions: exactly the configurations with positive tournament size,
+    population size and evaluation window are accepted (any integers, also negative), and the fields
+    are the arguments -/
+theorem C05_source_translation_init (t : Int) (e : Bool) (p w : Int) :
+    (TournamentSelection.__init__ t e p w).isSome = true ↔ (0 < t ∧ 0 < p ∧ 0 < w) := by
+  constructor
+  · intro h
+    obtain ⟨s, hs⟩ := Option.isSome_iff_exists.mp h
+    obtain ⟨h1, h2, h3, _⟩ := (gen_init_iff t e p w s).mp hs
+    exact ⟨h1, h2, h3⟩
+  · rintro ⟨h1, h2, h3⟩
+    rw [(gen_init_iff t e p w _).mpr ⟨h1, h2, h3, rfl⟩]
+    rfl
+
+/-- the translated `select` does not raise on a non-empty population, and **the new population has
+    exactly `population_size` members** — for any `clone`, any ties, any draws -/
+theorem C05_source_translation_size (clone : Agent → Option Int → Bool → Agent) (c : Cfg) (hv : c.valid)
+    (pop : List Agent) (hne : pop ≠ []) (s0 s1 s2 : List Nat) (draws : Nat → List Nat)
+    (ok : NumpyOk c pop s0 s1 s2 draws) :
+    ∃ elite new, (toGen c).select (opsWith clone) pop s0 s1 s2 draws = some (elite, new) ∧
+      new.length = c.popSize := by
+  refine ⟨_, _, gen_select_eq_clone clone c hv pop hne s0 s1 s2 draws ok.h0 ok.h1 ok.h2 ok.hd, ?_⟩
+  have := hv.2.1
+  cases he : c.elitism <;> simp [selSize, he]
+  omega
+
+/-- **the elite is a best agent and, with elitism, comes first**: whatever the translated `select`
+    returns as elite is `clone()` of a member of the population whose mean of the last `eval_loop`
+    scores is ≥ that of every member (for every tie order numpy may produce); with elitism on, the
+    first member of the new population is `clone(wrap=False)` of that returned elite -/
+theorem C05_source_translation_elite (clone : Agent → Option Int → Bool → Agent) (c : Cfg) (hv : c.valid)
+    (pop : List Agent) (hne : pop ≠ []) (s0 s1 s2 : List Nat) (draws : Nat → List Nat)
+    (ok : NumpyOk c pop s0 s1 s2 draws) (elite : Agent) (new : List Agent)
+    (h : (toGen c).select (opsWith clone) pop s0 s1 s2 draws = some (elite, new)) :
+    ∃ best ∈ pop, elite = clone best none true ∧
+      (∀ a ∈ pop, kle (key c.evalLoop a) (key c.evalLoop best) = true) ∧
+      (Evaluated pop → ∀ a ∈ pop, meanLast c.evalLoop a ≤ meanLast c.evalLoop best) ∧
+      (c.elitism = true → new.head? = some (clone elite none false)) := by
+  rw [gen_select_eq_clone clone c hv pop hne s0 s1 s2 draws ok.h0 ok.h1 ok.h2 ok.hd] at h
+  simp only [Option.some.injEq, Prod.mk.injEq] at h
+  obtain ⟨h1, h2⟩ := h
+  obtain ⟨hlt, _, hk, hm⟩ := C05_elite_max_mean c hv pop hne s1 ok.ranking
+  refine ⟨pop.getD (elitePos s1) default, getD_mem hlt, h1.symm, hk, hm, ?_⟩
+  intro he
+  rw [← h2, ← h1]
+  simp [he]
+
+/-- **every other member is a clone of a tournament winner = the best-ranked of its draws, with the
+    next fresh id**: member `t` after the elite slot is `clone(max_id + 1 + t, wrap=False)` of the
+    population member at position `p`, where `p` is one of the positions drawn for tournament `t`
+    and no drawn position has a larger rank, hence none has a larger mean -/
+theorem C05_source_translation_winner (clone : Agent → Option Int → Bool → Agent) (c : Cfg) (hv : c.valid)
+    (pop : List Agent) (hne : pop ≠ []) (s0 s1 s2 : List Nat) (draws : Nat → List Nat)
+    (ok : NumpyOk c pop s0 s1 s2 draws) (elite : Agent) (new : List Agent)
+    (h : (toGen c).select (opsWith clone) pop s0 s1 s2 draws = some (elite, new))
+    (t : Nat) (ht : t < selSize c) :
+    ∃ p ∈ draws t, p < pop.length ∧
+      new[(if c.elitism then 1 else 0) + t]? =
+        some (clone (pop.getD p default) (some (maxId pop + 1 + (t : Int))) false) ∧
+      (∀ d ∈ draws t, s1.getD d 0 ≤ s1.getD p 0) ∧
+      (∀ d ∈ draws t, kle (key c.evalLoop (pop.getD d default)) (key c.evalLoop (pop.getD p default)) = true) ∧
+      (Evaluated pop → ∀ d ∈ draws t,
+        meanLast c.evalLoop (pop.getD d default) ≤ meanLast c.evalLoop (pop.getD p default)) := by
+  rw [gen_select_eq_clone clone c hv pop hne s0 s1 s2 draws ok.h0 ok.h1 ok.h2 ok.hd] at h
+  simp only [Option.some.injEq, Prod.mk.injEq] at h
+  obtain ⟨_, h2⟩ := h
+  obtain ⟨hdl, hdr⟩ := ok.hd t ht
+  have hdne : draws t ≠ [] := by
+    intro e; rw [e] at hdl; have := hv.1; simp at hdl; omega
+  obtain ⟨_, _, hmem, hrank, hk, hm⟩ := C05_winner_best_drawn c hv pop s1 ok.ranking draws t ht hdne hdr
+  refine ⟨winner s1 (draws t), hmem, hdr _ hmem, ?_, hrank, hk, hm⟩
+  rw [← h2]
+  cases c.elitism
+  · simp [tournChildren, ht]
+  · simp only [if_true, List.singleton_append]
+    rw [Nat.add_comm, List.getElem?_cons_succ]
+    simp [tournChildren, ht]
+
+/-- **new ids are `max_id + 1, max_id + 2, …` — consecutive, distinct, above every old id.**  If
+    `clone(index)` sets the index and `clone()` keeps it (C01), the indices of the new population are
+    the elite's own index (with elitism) followed by `max_id + 1 + t` for `t = 0 … selection_size-1`;
+    they are pairwise distinct and every tournament child's index exceeds every old index -/
+theorem C05_source_translation_indices (clone : Agent → Option Int → Bool → Agent)
+    (hclone : ∀ a i w, (clone a i w).index = i.getD a.index)
+    (c : Cfg) (hv : c.valid) (pop : List Agent) (hne : pop ≠ []) (s0 s1 s2 : List Nat)
+    (draws : Nat → List Nat) (ok : NumpyOk c pop s0 s1 s2 draws) (elite : Agent) (new : List Agent)
+    (h : (toGen c).select (opsWith clone) pop s0 s1 s2 draws = some (elite, new)) :
+    new.map (·.index) =
+      (if c.elitism then [(pop.getD (elitePos s1) default).index] else []) ++
+      (List.range (selSize c)).map (fun (t : Nat) => maxId pop + 1 + (t : Int)) ∧
+    (new.map (·.index)).Nodup ∧
+    (∀ t, t < selSize c → ∀ a ∈ pop, a.index < maxId pop + 1 + (t : Int)) := by
+  rw [gen_select_eq_clone clone c hv pop hne s0 s1 s2 draws ok.h0 ok.h1 ok.h2 ok.hd] at h
+  simp only [Option.some.injEq, Prod.mk.injEq] at h
+  obtain ⟨_, h2⟩ := h
+  have hidx : new.map (·.index) = (newPop c s1 pop draws).map (·.index) := by
+    rw [← h2, newPop_indices]
+    cases c.elitism <;>
+      simp [tournChildren, hclone, List.map_map, Function.comp_def]
+  obtain ⟨hnd, _, heq⟩ := C05_indices_fresh_distinct c pop hne s1 ok.ranking draws
+  refine ⟨by rw [hidx]; exact heq, by rw [hidx]; exact hnd, ?_⟩
+  intro t _ a ha
+  have := le_maxId pop a ha
+  omega
+
+/-- the same over the model's `clone` (index replaced, everything else — fitness history, marker —
+    copied): what the translated `select` returns is exactly the model's `(eliteOf, newPop)`, so every
+    theorem of this file about `newPop` / `eliteOf` holds for the translated code -/
+theorem C05_source_translation_select_is_model (c : Cfg) (hv : c.valid) (pop : List Agent) (hne : pop ≠ [])
+    (s0 s1 s2 : List Nat) (draws : Nat → List Nat) (ok : NumpyOk c pop s0 s1 s2 draws) :
+    (toGen c).select (opsWith modelClone) pop s0 s1 s2 draws = some (eliteOf s1 pop, newPop c s1 pop draws) ∧
+    (newPop c s1 pop draws).length = c.popSize ∧
+    ((newPop c s1 pop draws).map (·.index)).Nodup ∧
+    eliteOf s1 pop = pop.getD (elitePos s1) default :=
+  ⟨(gen_select_eq c hv pop hne s0 s1 s2 draws ok.h0 ok.h1 ok.h2 ok.hd).1, newPop_length c hv s1 pop draws,
+   (C05_indices_fresh_distinct c pop hne s1 ok.ranking draws).1,
+   (C05_elite_max_mean c hv pop hne s1 ok.ranking).2.1⟩
+
+/-- a value numpy cannot return is not a result of the call: with a first sort parameter that is not
+    a sorting permutation of the means the translated `select` has no result -/
+theorem C05_source_translation_guard (clone : Agent → Option Int → Bool → Agent) (c : Cfg) (hv : c.valid)
+    (pop : List Agent) (s0 s1 s2 : List Nat) (draws : Nat → List Nat)
+    (h : ¬ IsArgsort keyLe (keys c.evalLoop pop) s0) :
+    (toGen c).select (opsWith clone) pop s0 s1 s2 draws = none :=
+  gen_select_bad_sort clone c hv pop s0 s1 s2 draws h
+
+end source_translation
 
 /-! ### non-vacuity: a concrete 4-agent population with a three-way tie at the top -/
 
